@@ -286,6 +286,10 @@ func EnsureInterface(in interface{}, err error) (interface{}, error) {
 		in = v.Interface()
 	}
 	if v, ok := in.(*_refHolder); ok {
+		if !v.value.IsValid() {
+			// an empty list that was bound to a typed destination: no value
+			return nil, nil
+		}
 		in = v.value.Interface()
 	}
 	return in, nil
@@ -431,6 +435,11 @@ func SetSlice(dest reflect.Value, objects interface{}) error {
 }
 
 func ConvertSliceValueType(destTyp reflect.Type, v reflect.Value) (reflect.Value, error) {
+	// an empty list has been converted to "no value" already (see below): a second
+	// reference to it finds that in its holder
+	if !v.IsValid() {
+		return _zeroValue, nil
+	}
 	if destTyp == v.Type() {
 		return v, nil
 	}
